@@ -36,8 +36,29 @@ func VerifC11_Writables() {
 		return &master_pb.VolumeInformationMessage{Id: vid, Size: rt.U64("size"), ReadOnly: rt.Bool("readonly"), ReplicaPlacement: rpByte, Version: uint32(needle.CurrentVersion)}
 	}
 	k := rt.Param("steps", 3)
+	isOffered := func() bool {
+		rp, _ := super_block.NewReplicaPlacementFromByte(byte(rpByte))
+		for _, w := range topo.GetVolumeLayout("", rp, needle.EMPTY_TTL, types.HardDriveType).writables {
+			if w == vid {
+				return true
+			}
+		}
+		return false
+	}
+	// fullWhenRegistered[i]: server i registered the volume (first report after not holding it) with a size
+	// at or over the limit - the master remembers that as "oversized" for that server
+	fullWhenRegistered := make([]bool, nNodes)
+	holds := func(i int) bool {
+		if nodes[i] == nil || !connected[i] {
+			return false
+		}
+		_, err := nodes[i].GetVolumesById(vid)
+		return err == nil
+	}
 	for step := 0; step < k; step++ {
+		offeredBefore := isOffered()
 		who := rt.Choice("node", nNodes)
+		heldBefore := holds(who)
 		switch rt.Choice("event", 4) {
 		case 0: // full heartbeat
 			if !connected[who] {
@@ -48,20 +69,42 @@ func VerifC11_Writables() {
 				vols = append(vols, msg())
 			}
 			topo.SyncDataNodeRegistration(vols, nodes[who])
+			if len(vols) == 0 {
+				fullWhenRegistered[who] = false
+			} else if !heldBefore {
+				fullWhenRegistered[who] = vols[0].Size >= limit
+			}
 		case 1: // incremental heartbeat: new volume
 			if !connected[who] {
 				join(who)
 			}
 			topo.IncrementalSyncDataNodeRegistration([]*master_pb.VolumeShortInformationMessage{{Id: vid, ReplicaPlacement: rpByte, Version: uint32(needle.CurrentVersion)}}, nil, nodes[who])
+			if !heldBefore {
+				fullWhenRegistered[who] = false
+			}
 		case 2: // incremental heartbeat: deleted volume
 			if !connected[who] {
 				join(who)
 			}
 			topo.IncrementalSyncDataNodeRegistration(nil, []*master_pb.VolumeShortInformationMessage{{Id: vid, ReplicaPlacement: rpByte, Version: uint32(needle.CurrentVersion)}}, nodes[who])
+			fullWhenRegistered[who] = false
 		case 3: // the server's connection drops
 			if connected[who] {
 				topo.UnRegisterDataNode(nodes[who])
 				connected[who] = false
+				fullWhenRegistered[who] = false
+			}
+		}
+		// a replica that was registered as full and still reports a size at or over the limit never becomes
+		// writable through a heartbeat (a volume that merely grows over the limit stays listed until the
+		// periodic scan below - that window is how the master works and is not asserted)
+		if !offeredBefore && isOffered() {
+			for i, dn := range nodes {
+				if connected[i] && fullWhenRegistered[i] {
+					if v, err := dn.GetVolumesById(vid); err == nil {
+						rt.Assert(v.Size < limit, "replica-registered-as-full-never-becomes-writable-by-a-heartbeat")
+					}
+				}
 			}
 		}
 		// the periodic scan for full volumes (CollectDeadNodeAndFullVolumes -> SetVolumeCapacityFull)
